@@ -26,3 +26,23 @@ class AbsQueue:
 
     def put_nowait(self, item):
         raise NotImplementedError("external")
+
+
+class AbsCallback:
+    """A registered stream/function callback (user code): called with (handler, message); returns a function object to
+    send as reply, or None, or raises."""
+
+    def __call__(self, handler, message):
+        raise NotImplementedError("external")
+
+
+class AbsFunctionClass:
+    """A class of the stream/function catalogue as seen by the reply logic: calling it builds a function object of that
+    stream and function."""
+
+    def __call__(self, *args):
+        raise NotImplementedError("external")
+
+
+class AbsFunction:
+    """A stream/function object handed to send_response (ghost: g_stream, g_function, g_id)."""
